@@ -50,7 +50,22 @@ func makeNamedType(name string, underlying types.Type) *types.Named {
 }
 
 func makeReflectValue(t types.Type, v value) value {
-	return structure{rtype{t}, v}
+	return structure{rtype{t}, v, nil}
+}
+
+// makeReflectValueAt is an addressable reflect.Value: Set writes through p.
+func makeReflectValueAt(t types.Type, p *value) value {
+	return structure{rtype{t}, *p, p}
+}
+
+func rV2A(v value) *value {
+	s := v.(structure)
+	if len(s) > 2 {
+		if p, ok := s[2].(*value); ok {
+			return p
+		}
+	}
+	return nil
 }
 
 // Given a reflect.Value, returns its rtype.
@@ -242,6 +257,9 @@ func reflectKind(t types.Type) reflect.Kind {
 
 func ext۰reflect۰Value۰Kind(fr *frame, args []value) value {
 	// Signature: func (reflect.Value) uint
+	if rV2T(args[0]).t == nil {
+		return uint(reflect.Invalid) // the zero Value (reflect.ValueOf(nil))
+	}
 	return uint(reflectKind(rV2T(args[0]).t))
 }
 
@@ -366,9 +384,9 @@ func ext۰reflect۰Value۰Index(fr *frame, args []value) value {
 	t := rV2T(args[0]).t.Underlying()
 	switch v := rV2V(args[0]).(type) {
 	case array:
-		return makeReflectValue(t.(*types.Array).Elem(), v[i])
+		return makeReflectValueAt(t.(*types.Array).Elem(), &v[i])
 	case []value:
-		return makeReflectValue(t.(*types.Slice).Elem(), v[i])
+		return makeReflectValueAt(t.(*types.Slice).Elem(), &v[i])
 	default:
 		panic(fmt.Sprintf("reflect.(Value).Index(%T)", v))
 	}
@@ -397,11 +415,11 @@ func ext۰reflect۰Value۰Elem(fr *frame, args []value) value {
 	case iface:
 		return makeReflectValue(x.t, x.v)
 	case *value:
-		var v value
+		et := rV2T(args[0]).t.Underlying().(*types.Pointer).Elem()
 		if x != nil {
-			v = *x
+			return makeReflectValueAt(et, x)
 		}
-		return makeReflectValue(rV2T(args[0]).t.Underlying().(*types.Pointer).Elem(), v)
+		return makeReflectValue(et, nil)
 	default:
 		panic(fmt.Sprintf("reflect.(Value).Elem(%T)", x))
 	}
@@ -478,13 +496,58 @@ func ext۰reflect۰Value۰IsValid(fr *frame, args []value) value {
 }
 
 func ext۰reflect۰Value۰Set(fr *frame, args []value) value {
-	// TODO(adonovan): implement.
+	p := rV2A(args[0])
+	if p == nil {
+		panic(targetPanic{iface{t: types.Typ[types.String], v: "reflect: reflect.Value.Set using unaddressable value"}})
+	}
+	dst := rV2T(args[0]).t
+	src := rV2T(args[1])
+	v := rV2V(args[1])
+	if types.IsInterface(dst) {
+		if it, ok := v.(iface); ok {
+			v = it
+		} else if src.t == nil {
+			v = iface{}
+		} else {
+			v = iface{t: src.t, v: v}
+		}
+	}
+	fr.i.writeCell(p, v)
 	return nil
+}
+
+func ext۰reflect۰Indirect(fr *frame, args []value) value {
+	if _, ok := rV2T(args[0]).t.Underlying().(*types.Pointer); ok {
+		return ext۰reflect۰Value۰Elem(fr, args)
+	}
+	return args[0]
+}
+
+func ext۰reflect۰Value۰FieldByName(fr *frame, args []value) value {
+	t := rV2T(args[0]).t
+	st, ok := t.Underlying().(*types.Struct)
+	if !ok {
+		panic(fmt.Sprintf("reflect.(Value).FieldByName on %s", t))
+	}
+	name := args[1].(string)
+	for k := 0; k < st.NumFields(); k++ {
+		if st.Field(k).Name() == name {
+			if p := rV2A(args[0]); p != nil {
+				fields := (*p).(structure)
+				return makeReflectValueAt(st.Field(k).Type(), &fields[k])
+			}
+			return makeReflectValue(st.Field(k).Type(), rV2V(args[0]).(structure)[k])
+		}
+	}
+	return makeReflectValue(nil, nil)
 }
 
 func ext۰reflect۰valueInterface(args []value) value {
 	// Signature: func (v reflect.Value, safe bool) interface{}
 	v := args[0].(structure)
+	if it, ok := rV2V(v).(iface); ok {
+		return it // a value of interface type: its dynamic type and value
+	}
 	return iface{rV2T(v).t, rV2V(v)}
 }
 
@@ -525,6 +588,7 @@ func prepareProgram(prog *ssa.Program) {
 		rV.SetUnderlying(types.NewStruct([]*types.Var{
 			types.NewField(token.NoPos, r.Pkg, "t", tEface, false), // a lie
 			types.NewField(token.NoPos, r.Pkg, "v", tEface, false),
+			types.NewField(token.NoPos, r.Pkg, "a", tEface, false), // address of v when addressable (gosx)
 		}, nil))
 	}
 }
